@@ -724,6 +724,12 @@ const c17WaitInitCases = 16
 
 func runC17(w *core.WorkerCtx, idx int) *core.CaseResult {
 	res := &core.CaseResult{Nontrivial: true}
+	if main := c17Main(w.Tier); idx >= main+c17WaitInitCases {
+		runC17Overlap(w, idx-main-c17WaitInitCases, res)
+		res.Sig = fmt.Sprintf("overlap-%d", idx-main-c17WaitInitCases)
+		res.Viol = dedupeByClass(res.Viol)
+		return res
+	}
 	if main := c17Main(w.Tier); idx >= main {
 		runC17WaitInit(w, idx-main, res)
 		res.Sig = fmt.Sprintf("waitinit-%d", idx-main)
@@ -752,18 +758,19 @@ func init() {
 	core.Register(&core.Prop{
 		ID:    "C17",
 		Level: "exploration",
-		Rule: "three monitors over the real TargetsDiscovery + Explore wired as in cmd/kvass/coordinator.go, driven through the channel the Prometheus discovery manager would feed: " +
+		Rule: "monitors over the real TargetsDiscovery + Explore wired as in cmd/kvass/coordinator.go, driven through the channel the Prometheus discovery manager would feed: " +
 			"(1) even cases: a seed-determined sequence of 12-41 steps (full updates, partial first rounds, updates still carrying a just-removed job, reloads that add/remove/keep jobs over {ja,jb,jc}, targets that relabeling drops) with ActiveTargets / DropTargets / ActiveTargetsByHash / Explore.Get compared to a reference model after every step and all earlier snapshots re-checked for mutation; " +
 			"a third of the update runs in (1) are sent back to back (2-4 updates without waiting for the explorer) and judged after the last; " +
 			"(2) odd cases: the same kind of steps from one writer with 4-8 concurrent reader goroutines; every update carries a unique version in its target ids, reads and writes are recorded with call/return times from one monotonic clock and the history (<= 60 operations) is checked with porcupine against a sequential map job->version in which a reload removes exactly the deleted jobs; torn reads (two versions of one job) are reported directly; " +
 			"in (1) every reload draws per job whether its relabel rule also drops targets labelled dropme=maybe, one reload in three keeps the job names of the previous configuration (content-only reload), every update carries such targets, and the model translates each update under the latest reload;  " +
+			"(5) 2/16 overlap cases: 200-350 jobs x 80-140 targets; six times a reload that keeps every job runs while an update of one job is sent 0-40 ms after the explorer's reload callback begins (signalled by a harness callback placed in front of it in the ConfigManager's list); once both returned, the explorer must track the update's targets and none of those it replaced; " +
 			"(3) a -race pass over linearizability cases with attribution of reports to reader/writer pairs of the tables; (4) 16 start-up cases: WaitInit runs while the first rounds of three jobs arrive at scripted times (one job may stay silent): it must not return before every configured job had its first round (or before its context ends) and must return within bounded time afterwards; non-trivial = every case; distinct = case index per monitor",
 		Assumptions: []string{
-			"updates and reloads are issued sequentially by one writer (the property quantifies over sequences of updates and reloads interleaved with readers, not over update-reload races)",
+			"in monitors (1)-(4) updates and reloads are issued sequentially by one writer; monitor (5) overlaps one reload with one update and judges only the state after both have returned (both orders give the same table when the reload keeps every job)",
 			"a write's interval is [send on the discovery channel, hand-over to the explorer]",
 			"porcupine timeout => inconclusive",
 		},
-		NumCases:         func(tier string) int { return c17Main(tier) + c17WaitInitCases },
+		NumCases:         func(tier string) int { return c17Main(tier) + c17WaitInitCases + c17OverlapCases(tier) },
 		Run:              runC17,
 		MinNontrivial:    100,
 		CrashIsViolation: true,
